@@ -32,15 +32,9 @@ structure DeepExpect where
 /-- Rows for the loops whose body the translator cannot describe: the hash of the alpha-normalised
 loop text plus the normalised text of every module function it transitively calls (callees numbered in
 discovery order, so renaming a helper does not matter), and the effect kinds admitted. A described
-loop needs no row: the descriptor pass makes a loop opaque as soon as its closure has one of the kinds. -/
-def deepExpected : List DeepExpect := [
-  -- addDefaults → addDefaultObject → lookupCmd → matchCmd: `panic("Incomplete string …")` sits under the
-  -- template token `"`, which no toplevel command type has (`quote_token_only_in_subcommands`).
-  ⟨"cisco/parse.go", "parser.addDefaults", "defaultObjects", 0, "5412020535c91a64", ["abort"]⟩,
-  -- LoadConfig → insert → `warn("Ignoring key …")` only in the default case of `switch key`; every key
-  -- of the literal defaultVals is a case of that switch (`default_keys_known`).
-  ⟨"program/config.go", "LoadConfig", "defaultVals", 0, "695a181648feb0c3", ["out"]⟩
-]
+loop needs no row: the descriptor pass makes a loop opaque as soon as its closure has one of the kinds.
+Currently empty: every loop of the repository is described (see `hash_tied_sites`). -/
+def deepExpected : List DeepExpect := []
 
 /-! ## `setName` of generateNamesForTransfer: the first free `-DRC-<index>` of the command's own kind -/
 
